@@ -240,6 +240,7 @@ func VerifC06FSM() {
 	vInstallRaftStandIn()
 	k := vParam("ops", 3)
 	kinds := vParam("kinds", 12)
+	async := vParam("async", 0)
 	dirA, dirB := vTempDir(), vTempDir()
 	a, b := vMkFSMServer(dirA), vMkFSMServer(dirB)
 	vRaft = &vRaftStand{logs: map[uint64]*raft.Log{}, first: 0}
@@ -260,8 +261,18 @@ func VerifC06FSM() {
 		}
 		vRaft.commit = uint64(i)
 		a.Apply(l)
-		b.Apply(&raft.Log{Index: uint64(i), Type: raft.LogCommand, Data: data})
-		vYield()
+		// The consumer groups hear of a stream deletion from a goroutine that
+		// Apply starts; with async=1 that goroutine may also run only after
+		// the next operation was applied (server B always runs it first).
+		delayed := false
+		if async == 1 && op.Op == proto.Op_DELETE_STREAM && i < k {
+			delayed = vChoose(2) == 1
+		}
+		if !delayed {
+			vYield()
+		} else {
+			vCover("notification-delayed")
+		}
 		if i == j {
 			fs, err := a.Snapshot()
 			vAssert(err == nil, "Snapshot succeeds")
@@ -269,6 +280,11 @@ func VerifC06FSM() {
 			vAssert(fs.Persist(sink) == nil, "snapshot persists")
 			snap = append([]byte{}, sink.Bytes()...)
 		}
+	}
+	vYield()
+	for i := 1; i <= k; i++ {
+		b.Apply(&raft.Log{Index: uint64(i), Type: raft.LogCommand, Data: datas[i-1]})
+		vYield()
 	}
 	vCover("history-applied")
 	canonA := vCanon(a)
